@@ -34,6 +34,13 @@
 #include "soplex/mpsinput.h"
 #include "soplex/spxout.h"
 
+/* strtok() keeps its position in a process-wide static, which breaks concurrent reads in different threads */
+#ifdef _MSC_VER
+#define SOPLEX_STRTOK_R strtok_s
+#else
+#define SOPLEX_STRTOK_R strtok_r
+#endif
+
 #define PATCH_CHAR    '_'
 #define BLANK         ' '
 
@@ -69,6 +76,7 @@ bool MPSInput::readLine()
    int   len;
    int   space;
    char* s;
+   char* saveptr = nullptr;
    bool  is_marker;
    bool  is_comment;
 
@@ -117,11 +125,11 @@ bool MPSInput::readLine()
        */
       if(*m_buf != BLANK)
       {
-         m_f0 = strtok(&m_buf[0], " ");
+         m_f0 = SOPLEX_STRTOK_R(&m_buf[0], " ", &saveptr);
 
          assert(m_f0 != nullptr);
 
-         m_f1 = strtok(nullptr, " ");
+         m_f1 = SOPLEX_STRTOK_R(nullptr, " ", &saveptr);
 
          return true;
       }
@@ -193,10 +201,10 @@ bool MPSInput::readLine()
        */
       do
       {
-         if(nullptr == (m_f1 = strtok(s, " ")))
+         if(nullptr == (m_f1 = SOPLEX_STRTOK_R(s, " ", &saveptr)))
             break;
 
-         if((nullptr == (m_f2 = strtok(nullptr, " "))) || (*m_f2 == '$'))
+         if((nullptr == (m_f2 = SOPLEX_STRTOK_R(nullptr, " ", &saveptr))) || (*m_f2 == '$'))
          {
             m_f2 = nullptr;
             break;
@@ -205,7 +213,7 @@ bool MPSInput::readLine()
          if(!strcmp(m_f2, "'MARKER'"))
             is_marker = true;
 
-         if((nullptr == (m_f3 = strtok(nullptr, " "))) || (*m_f3 == '$'))
+         if((nullptr == (m_f3 = SOPLEX_STRTOK_R(nullptr, " ", &saveptr))) || (*m_f3 == '$'))
          {
             m_f3 = nullptr;
             break;
@@ -224,7 +232,7 @@ bool MPSInput::readLine()
          if(!strcmp(m_f3, "'MARKER'"))
             is_marker = true;
 
-         if((nullptr == (m_f4 = strtok(nullptr, " "))) || (*m_f4 == '$'))
+         if((nullptr == (m_f4 = SOPLEX_STRTOK_R(nullptr, " ", &saveptr))) || (*m_f4 == '$'))
          {
             m_f4 = nullptr;
             break;
@@ -240,7 +248,7 @@ bool MPSInput::readLine()
                break; // unknown marker
          }
 
-         if((nullptr == (m_f5 = strtok(nullptr, " "))) || (*m_f5 == '$'))
+         if((nullptr == (m_f5 = SOPLEX_STRTOK_R(nullptr, " ", &saveptr))) || (*m_f5 == '$'))
             m_f5 = nullptr;
       }
       while(false);
